@@ -426,8 +426,10 @@ func verifC03(c *drv.Ctx) {
 						time.Sleep(300 * time.Millisecond)
 					}
 					injectedInto[k] = len(zzvenv.W.Socks) - 1
-					if len(zzvenv.OpenSockets()) != 1 {
-						injectedInto[k] = -100 - len(zzvenv.OpenSockets())
+					// the chunk's own socket must be open now (an earlier chunk's socket may still be
+					// winding down: a program may leave its descriptor to the reader to close)
+					if n := len(zzvenv.W.Socks); n == 0 || zzvenv.W.Socks[n-1].Closed() {
+						injectedInto[k] = -100
 					}
 					accepted[k] = make([]bool, len(frames))
 					for i := range frames {
@@ -438,7 +440,7 @@ func verifC03(c *drv.Ctx) {
 				// alphabet goes into its window too, and nothing it carries is a reply to that pass
 				for k := nchunks; k < nchunks+2; k++ {
 					time.Sleep(300 * time.Millisecond)
-					if len(zzvenv.W.Socks)-1 != k || len(zzvenv.OpenSockets()) != 1 {
+					if len(zzvenv.W.Socks)-1 != k || zzvenv.W.Socks[k].Closed() {
 						break
 					}
 					injectedInto = append(injectedInto, k)
